@@ -233,6 +233,7 @@ def run_case(ctx, name, params):
             ctx.count("cases")
     elif name == "eps_pairs":
         r = ctx.rng("ep", params["seed"])
+        shared = []
         for _ in range(params["n"]):
             m = r.randint(1, 6)
             k = r.randint(1, m + 1)
@@ -249,12 +250,19 @@ def run_case(ctx, name, params):
             mp = gen.marker_value(r)
             mq = mp if r.random() < 0.7 else gen.marker_value(r)
             form = r.random()
-            if form < 0.15 and k == 1:
+            if shared and r.random() < 0.5:
+                # one comparator object serves vectors of different lengths (as the default comparator shared by every
+                # Archive() does): nothing learnt from an earlier pair may leak into a later verdict
+                ed, eps = r.choice(shared)
+                ctx.count("verdicts_on_reused_comparator_objects")
+            elif form < 0.15 and k == 1:
                 ed = Eps(eps[0])
             elif form < 0.3:
                 ed = Eps(tuple(eps))
             else:
                 ed = Eps(list(eps))
+            if len(shared) < 4 and r.random() < 0.2:
+                shared.append((ed, list(eps)))
             _judge_eps(ctx, ed, eps, p + [mp], q + [mq], "pair")
             _judge_eps(ctx, ed, eps, q + [mq], p + [mp], "pair")
             ctx.count("cases")
